@@ -18,9 +18,12 @@ if [ -n "$RX" ]; then ctest --test-dir "$WT/_b" -R "$RX" --timeout 900 2>&1 | ta
 DEMO=$(ls "$MD"/demo.c "$MD"/demo.cpp 2>/dev/null | head -1)
 CC=gcc; case "$DEMO" in *.cpp) CC=g++;; esac
 $CC "$DEMO" -I"$WT/src" -I"$WT/_b/src" -L"$WT/_b/src" -lplibsys -lpthread -Wl,-rpath,"$WT/_b/src" -o "$WT/_b/demo" && { timeout 300 "$WT/_b/demo" | tail -3; echo "DEMO-WITH-CHANGE rc=${PIPESTATUS[0]}"; }
+# run the checks from a private clone of /verif so that evidence/ and lean/PV/Generated of /verif are not touched
+VER=/tmp/confirm/verif
+if [ -d "$VER/.git" ]; then git -C "$VER" pull -q --ff-only /verif main 2>/dev/null || { rm -rf "$VER"; git clone -q /verif "$VER"; }; else git clone -q /verif "$VER"; fi
 for P in $PROP; do
   echo "== our check $P against the patched tree"
-  VERIF_REPO="$WT" python3 /verif/tools/check.py "$P" --tier quick 2>&1 | grep -E "VIOLATION|KNOWN|->|^\[" | cut -c1-400 | head -8
+  VERIF_REPO="$WT" python3 "$VER/tools/check.py" "$P" --tier quick 2>&1 | grep -E "VIOLATION|KNOWN|->|^\[" | cut -c1-400 | head -12
   echo "CHECK-$P rc=${PIPESTATUS[0]}"
 done
 git checkout -- . && cmake --build "$WT/_b" 2>&1 | tail -1
